@@ -379,9 +379,20 @@ func verdict(p propSpec, tier string, seed int64, reps []*FamilyReport, known kn
 			violations: nviol, extra: map[string]interface{}{
 				"trace_lines_accepted": lines, "drift": drift, "known_findings_hit": knownHits,
 				"model_level_contract_failures": modelViol, "unexplored": unexplored, "families": p.Families, "from_cache": cached, "alternative_renderings_run": altRuns, "genrun_model_states": designStates, "genrun_model_transitions": designGen, "seeded_random_behaviours": randomBehs,
+				"float32_sweep": sweepOf(reps),
 			}})
 	}
 	return exit
+}
+
+// sweepOf: the native float32 sweep of family boundary, if one of the reports carries it
+func sweepOf(reps []*FamilyReport) interface{} {
+	for _, r := range reps {
+		if r.Sweep != nil {
+			return r.Sweep
+		}
+	}
+	return nil
 }
 
 type evidence struct {
